@@ -186,8 +186,9 @@ def check_cross(case):
                             errors.append("second worker inside A.context(): current_action() is %s" % conc._desc(current_action()))
                 elif op == "run":
                     A.run(lambda: None)
-            except (ValueError, RuntimeError):
-                # leaving a block from a foreign context is refused by contextvars: fine, as long as nothing leaks
+            except Exception:
+                # leaving a block from a foreign context is refused (contextvars raises ValueError): any refusal is
+                # fine, as long as nothing leaks
                 pass
             if current_action() is not before:
                 errors.append("second worker: %s on the other worker's action changed its current_action() from %s to %s" % (op, conc._desc(before), conc._desc(current_action())))
@@ -195,7 +196,7 @@ def check_cross(case):
             if own:
                 try:
                     leave_b()
-                except (ValueError, RuntimeError):
+                except Exception:
                     errors.append("second worker could not leave its own action afterwards")
                 B.finish()
 
@@ -229,7 +230,7 @@ def check_cross(case):
                         first_side_check(A, "after the other worker acted")
                         try:
                             leave()
-                        except (ValueError, RuntimeError):
+                        except Exception:
                             errors.append("first worker could not leave its own block afterwards")
                         if current_action() is not None:
                             errors.append("first worker after leaving: current_action() is %s, expected None (bare thread)" % conc._desc(current_action()))
@@ -271,7 +272,7 @@ def check_cross(case):
                         first_side_check(A, "after the other task acted")
                         try:
                             leave()
-                        except (ValueError, RuntimeError):
+                        except Exception:
                             errors.append("first task could not leave its own block afterwards")
                         if current_action() is not parent:
                             errors.append("first task after leaving: current_action() is %s, expected the inherited parent" % conc._desc(current_action()))
